@@ -327,6 +327,21 @@ func unicodeFoldStrings(emit func(name, kind string)) {
 	}
 }
 
+// repeatedTokenStrings: a data input written twice with two different values (QN08-QA10, PSHA1-PSHA256, T1M-T2M,
+// S064-S128) or simply twice (C-C): no configuration denotes both, so the string cannot be represented faithfully.
+// (The order of otherwise valid, distinct tokens is not judged.)
+func repeatedTokenStrings(emit func(name, kind string)) {
+	for _, base := range []string{"OCRA-1:HOTP-SHA1-6:", "OCRA-1:HOTP-SHA256-8:C-", "OCRA-1:HOTP-SHA512-10:"} {
+		for _, d := range []string{"QN08-QA10", "QA10-QN08", "QN08-QN10", "QH08-QH08", "QN08-PSHA1-PSHA256", "QN08-PSHA512-PSHA1", "QN08-T1M-T2M", "QN08-T30S-T1H", "QN08-S064-S128", "QN08-S-S", "QN08-S-S064",
+			"C-C-QN08", "C-QN08-C", "QN08-PSHA1-QA10", "QN08-T1M-QH10", "QN08-PSHA1-S-T1M-PSHA256", "qn08-QA10", "QN08-psha1-PSHA256", "QN08-T1M-S-T5M"} {
+			if strings.HasSuffix(base, "C-") && strings.HasPrefix(d, "C-") {
+				continue
+			}
+			emit(base+d, "malformed:repeated-token")
+		}
+	}
+}
+
 func malformedStrings(emit func(name, kind string)) {
 	good := []string{"OCRA-1:HOTP-SHA1-6:QN08", "OCRA-1:HOTP-SHA256-8:C-QN10-PSHA1", "OCRA-1:HOTP-SHA512-8:QN08-T1M", "OCRA-1:HOTP-SHA1-6:C-QN08-PSHA1-S-T1"}
 	for _, g := range good {
@@ -431,6 +446,7 @@ func init() {
 			})
 			largeNumberStrings(func(n, class string) { cases = append(cases, nameCase{Name: n, Class: class}) })
 			unicodeFoldStrings(func(n, class string) { cases = append(cases, nameCase{Name: n, Class: class}) })
+			repeatedTokenStrings(func(n, class string) { cases = append(cases, nameCase{Name: n, Class: class}) })
 			bitFlipStrings(func(n, class string) {
 				if !seen[n] {
 					cases = append(cases, nameCase{Name: n, Class: class})
